@@ -42,6 +42,9 @@ def op_network_queries(F, sc, pps):
     for la in F.items(F.attr(net, "lanelets")):
         F.attr(la, "distance")
         F.attr(la, "polygon")
+        # route queries walk through other lanelets (lanelet 4 -> 3 -> [2, 1]: the upstream reference lists are not ascending)
+        F.method(la, "find_lanelet_predecessors_in_range", net, 500.0)
+        F.method(la, "find_lanelet_successors_in_range", net, 500.0)
 
 
 def op_goal(F, sc, pps):
@@ -95,6 +98,11 @@ def op_write_pb(F, sc, pps):
     F.method(w, "write_to_file", path, OverwriteExistingFile.ALWAYS)
 
 
+def op_write_both(F, sc, pps):
+    op_write_pb(F, sc, pps)
+    op_write_xml(F, sc, pps)
+
+
 ALL = ("network", "static", "dynamic", "setbased", "phantom", "environment")
 OPS = {
     "occupancy and state queries": (op_queries, ("static", "dynamic", "setbased", "phantom", "environment"), True, False),
@@ -104,6 +112,7 @@ OPS = {
     "deepcopy and pickling state": (op_copy, ("network", "static", "dynamic"), False, False),
     "writing to XML": (op_write_xml, ALL, False, True),
     "writing to protobuf": (op_write_pb, ALL, False, True),
+    "writing planning problems whose goal is given by lanelets (protobuf, then XML)": (op_write_both, ("mini_network", "goal_lanelets"), False, True),
 }
 
 for _name, (_op, _content, _custom, _pps) in OPS.items():
@@ -118,7 +127,7 @@ for _name, (_op, _content, _custom, _pps) in OPS.items():
         describe = "every observable attribute of the scenario, its obstacles and states, the lanelet network and the planning problems is unchanged"
 
         def build(self, F):
-            if self.op is op_write_pb:
+            if self.op is op_write_pb or self.op is op_write_both:
                 from contracts.c02 import WEATHER, fits_int32
 
                 sc = mk_scenario(F, self.content, weather=WEATHER)  # an enumeration member the .proto files define
@@ -129,13 +138,16 @@ for _name, (_op, _content, _custom, _pps) in OPS.items():
                 from commonroad.scenario.lanelet import Lanelet
 
                 cv = lambda y: (np.array([[30.0, y + 1.0], [40.0, y + 1.25]]), np.array([[30.0, y + 0.5], [40.0, y + 0.75]]), np.array([[30.0, y], [40.0, y + 0.25]]))
-                F.method(F.attr(sc, "lanelet_network"), "add_lanelet", F.new(Lanelet, *cv(7.0), 4))
+                F.method(F.attr(sc, "lanelet_network"), "add_lanelet", F.new(Lanelet, *cv(7.0), 4, [3]))  # downstream of lanelet 3
             if self.custom:
                 F.method(sc, "add_objects", custom_states_obstacle(F))
             from commonroad.planning.planning_problem import PlanningProblemSet
 
-            pps = mk_planning_problems(F) if self.with_pps else F.new(PlanningProblemSet)
-            if self.op is op_write_pb:
+            if "goal_lanelets" in self.content:
+                pps = mk_planning_problems(F, F.attr(sc, "lanelet_network"))
+            else:
+                pps = mk_planning_problems(F) if self.with_pps else F.new(PlanningProblemSet)
+            if self.op is op_write_pb or self.op is op_write_both:
                 fits_int32(F)
             return {"sc": sc, "pps": pps, "args": [], "snap_sc": F.snapshot(sc), "snap_pps": F.snapshot(pps)}
 
